@@ -767,7 +767,7 @@ def broker_replay(v, pid, behs, label, auth="mockSuccess", maxqos=2, own_tags=No
     own_tags = own_tags or {pid}
     if len(behs) == 0:
         raise Infra("%s: the specification produced no behaviours to replay" % label)
-    res = core.merge(core.run_sharded(["brokerreplay", "-auth", auth, "-maxqos", str(maxqos), "-frag", str(frag)], behs, timeout=2400))
+    res = core.merge(core.run_sharded(["brokerreplay", "-auth", auth, "-maxqos", str(maxqos), "-frag", str(frag), "-own", ",".join(sorted(own_tags))], behs, timeout=2400))
     mine = [m for m in res.get("mismatches", []) if m.get("tag") in own_tags]
     foreign = [m for m in res.get("mismatches", []) if m.get("tag") not in own_tags]
     v.cov["parts"][label] = {"behaviours": res.get("evaluations", 0), "steps": res.get("steps", 0),
@@ -821,7 +821,7 @@ def broker_check(pid, tier, plan, own, rule, extra=None, frag_item=None):
 @check("C01")
 def c01(tier):
     return broker_check("C01", tier, [("RoutingSpec", "cover", 3, 4, "mockSuccess"), ("RoutingSpec", "paths", 2, 3, "mockSuccess"), ("RoutingSpec", "paths", 2, 2, "mockSuccess", 1),
-                                      ("SameSpec", "cover", 6, 7, "mockSuccess"), ("SameLastSpec", "paths", 5, 6, "mockSuccess"), ("BigSpec", "paths", 4, 5, "mockSuccess")], {"C01"}, frag_item=1, rule=
+                                      ("SameSpec", "cover", 6, 7, "mockSuccess"), ("SameLastSpec", "paths", 5, 6, "mockSuccess"), ("BigSpec", "paths", 4, 5, "mockSuccess"), ("PathLastSpec", "paths", 4, 5, "mockSuccess")], {"C01"}, frag_item=1, rule=
                         "Broker specification, configuration routing: 2 network clients + 1 in-process subscriber, filters {a/b,a/+,a/#,#,+/b}, names "
                         "{a/b,a,a/b/c,c}, publish QoS x granted QoS in {0,1,2}^2, payloads tiny/empty/big; transition cover and all paths; after every "
                         "step the PUBLISH packets on every connection (topic, payload bytes, QoS, retain flag) are compared with the specification's bag. "
@@ -879,7 +879,7 @@ def c09(tier):
 
 @check("C10")
 def c10(tier):
-    return broker_check("C10", tier, [("SessSpec", "cover", 6, 7, "mockSuccess"), ("Sess1Spec", "paths", 6, 7, "mockSuccess"), ("Sess1LastSpec", "paths", 10, 12, "mockSuccess")], {"C10", "C01", "C07"},
+    return broker_check("C10", tier, [("SessSpec", "cover", 6, 7, "mockSuccess"), ("Sess1Spec", "paths", 6, 7, "mockSuccess"), ("Sess1LastSpec", "paths", 8, 10, "mockSuccess")], {"C10", "C01", "C07"},
                         "configuration session: connect (CleanSession 0/1) / subscribe / unsubscribe / DISCONNECT / cut over two client ids and two slots, probe "
                         "publishes; SessionPresent and deliveries to restored subscriptions compared.", frag_item=1)
 
